@@ -48,13 +48,15 @@ def plugin(name):
 
 
 def bounds(tier, seed):
-    return dict(D=DS, Dz=DS, dt=DTS, dxdy=DXS, particles=[1, 3], steps=[1, 2, 3, 50] if tier == "thorough" else [1, 3], advection=["", "EF"])
+    if tier == "thorough":
+        return dict(D=DS + [1e-6, 10.0, 1e4], Dz=DS + [1e-6, 10.0], dt=DTS + [10, 86400], dxdy=DXS, particles=[1, 3, 8], steps=[1, 2, 3, 50], advection=["", "EF"])
+    return dict(D=DS, Dz=DS, dt=DTS, dxdy=DXS, particles=[1, 3], steps=[1, 3], advection=["", "EF"])
 
 
 def cases(tier, seed):
     b = bounds(tier, seed)
     out = []
-    for D, Dz, dt, dxy in itertools.product(DS, DS, DTS, range(len(DXS))):
+    for D, Dz, dt, dxy in itertools.product(b["D"], b["Dz"], b["dt"], range(len(DXS))):
         out.append(dict(D=D, Dz=Dz, dt=dt, dxy=dxy, steps=b["steps"], particles=b["particles"]))
     for D, dt, sg in itertools.product([1e-2, 1.0, 100.0], [60, 3600], [None, [1, 7, 3, 8], [4, 10, 1, 6], [2, 9, 2, 7]]):
         out.append(dict(mode="roms", D=D, dt=dt, subgrid=sg))
@@ -108,9 +110,9 @@ def run_one(D, Dz, dt, dxy, nsteps, npart, adv, inactive=False, wadv=0.0, big=Fa
         scale = 1.4 / (sig_h / min(dx, dy))
     rng = Tagged(scale)
     tr.rng = rng
-    X0 = np.array([20.0, 18.5, 21.25][:npart])
-    Y0 = np.array([15.0, 14.5, 16.75][:npart])
-    Z0 = np.array([600.0, 650.0, 700.0][:npart])
+    X0 = np.array([20.0, 18.5, 21.25, 19.125, 22.5, 17.75, 20.625, 23.0][:npart])
+    Y0 = np.array([15.0, 14.5, 16.75, 13.25, 15.5, 16.0, 12.75, 14.0][:npart])
+    Z0 = np.array([600.0, 650.0, 700.0, 900.0, 2500.0, 4000.0, 1333.0, 1800.0][:npart])  # far from the surface and from the bottom (5000 m): no reflection
     st.append(X=X0, Y=Y0, Z=Z0)
     if inactive:
         st["active"][0] = False  # a settled particle stored BEFORE the active ones: it must not move, the others must diffuse
@@ -157,7 +159,8 @@ def run_one(D, Dz, dt, dxy, nsteps, npart, adv, inactive=False, wadv=0.0, big=Fa
                 if err[j] > 1e-9 * abs(exp[j]) + (64 if cellwise else 16) * np.finfo(float).eps * abs(pos[i]):
                     return (f"displacement:{name}", f"step {s} particle {i}: {name}-displacement {disp[i]} is not sqrt(2*{'Dz' if name == 'z' else 'D'}*dt)/d{name} "
                                                     f"times any value drawn in this step (sigma={sig}, metric={metric}; nearest candidate gives {exp[j]}, ratio {disp[i] / exp[j]})")
-                if j in used and not rng.big:
+                tol_ = 1e-9 * abs(exp[j]) + (64 if cellwise else 16) * np.finfo(float).eps * abs(pos[i])
+                if j in used and not rng.big and int((err <= tol_).sum()) == 1:  # (only when the match is unambiguous at the resolution of the position)
                     return ("draw-shared", f"step {s}: the same random value drives {used[j]} and {(name, i)}: displacements not independent")
                 used[j] = (name, i)
     return None
